@@ -109,6 +109,11 @@ type SrvScript struct {
 	Replies []Reply `json:"replies,omitempty"`
 	Post    string  `json:"post"`             // clear | sealed | absent
 	PostRC  string  `json:"postrc,omitempty"` // "" absent, AUTHORIZED, DENIED
+	// PostExtra: further string attributes of the post-auth ad, e.g. ones that
+	// contradict what happened on the wire (AuthMethods, Authentication, Encryption,
+	// CryptoMethods, User ...); PostExtraBool likewise for boolean attributes.
+	PostExtra     map[string]string `json:"postextra,omitempty"`
+	PostExtraBool map[string]bool   `json:"postextrabool,omitempty"`
 }
 
 func ctxT() (context.Context, context.CancelFunc) {
@@ -261,6 +266,12 @@ func ServeScript(conn *Conn, sc SrvScript, rng *mrand.Rand) (lg *Log) {
 	set2("ValidCommands", "60007")
 	_ = pad.Set("SessionDuration", 60)
 	_ = pad.Set("SessionLease", 30)
+	for k, v := range sc.PostExtra {
+		_ = pad.Set(k, v)
+	}
+	for k, v := range sc.PostExtraBool {
+		_ = pad.Set(k, v)
+	}
 	pm := message.NewMessageForStream(st)
 	if pm.PutClassAd(ctx, pad) != nil || pm.FinishMessage(ctx) != nil {
 		return
